@@ -17,7 +17,7 @@ CHECKS = {
          "DESIGN.md section 3, C02"),
  "C03": ("E3 sweep", "model_checking",
          "exhaustive enumeration against an independent reference model: login tuples, all 32x32 zero-byte shapes of S through the internal-function seam, all generators 2..255 x prime moduli alphabet on the client",
-         "v, B, A, K, M1, M2 from the public accessors are compared byte for byte with a reference model that shares no code with the library (own SHA-1/bigint), itself validated against Python and the repository's vectors; the S-shape dimension (every count of low/high zero bytes) is closed completely at the seam; announced groups are closed over all 254 generators x 17 prime moduli; the server's B is steered (through a constructed verifier and scripted b) to every count of high/low zero bytes and to 2^k, N-2^k for k = 0..255 with quotients 0..4 of (3v+g^b)/N.",
+         "v, B, A, K, M1, M2 from the public accessors are compared byte for byte with a reference model that shares no code with the library (own SHA-1/bigint), itself validated against Python and the repository's vectors; the S-shape dimension (every count of low/high zero bytes) is closed completely at the seam; announced groups are closed over all 256 generators x 17 prime moduli; the server's B is steered (through a constructed verifier and scripted b) to every count of high/low zero bytes and to 2^k, N-2^k for k = 0..255 with quotients 0..4 of (3v+g^b)/N.",
          "Key/salt space and modulus alphabet finite; reference model trusted after its self-test.",
          "DESIGN.md section 3, C03"),
  "C04": ("E3 sweep", "model_checking",
